@@ -287,7 +287,7 @@ run_seq(void *argp)
 	VH_OK(sopen(a->proto, &SK[1]));
 	VH_OK(nng_pipe_notify(SK[0], NNG_PIPE_EV_ADD_POST, pipe_cb, NULL));
 	VH_OK(nng_pipe_notify(SK[0], NNG_PIPE_EV_REM_POST, pipe_cb, NULL));
-	int sb = 1, rb = 1;
+	int sb = a->cycle == 2 ? 4 : 1, rb = sb;
 	VH_OK(nng_socket_set_int(SK[0], NNG_OPT_SENDBUF, sb));
 	VH_OK(nng_socket_set_int(SK[0], NNG_OPT_RECVBUF, rb));
 	VH_OK(nng_listen(SK[0], "inproc://c08", NULL, 0));
@@ -295,7 +295,9 @@ run_seq(void *argp)
 	vs_settle();
 	if (live_A != 1)
 		vs_fail("harness:setup", "B did not attach to A (live=%d)", live_A);
-	static const int NEXT[2][3] = { { 1, 2, 0 }, { 2, 0, 1 } };
+	// cycles c0: 1-2-0, c1: 1-0-2, c2 (power-of-two depths, start 4): 4-2-4
+	static const int NEXT[3][5] = { { 1, 2, 0, 0, 0 }, { 2, 0, 1, 0, 0 },
+		{ 4, 4, 4, 4, 2 } };
 	int total = a->nprefix + a->depth;
 	for (int step = 0; step < total; step++) {
 		int l = step < a->nprefix ? a->prefix[step]
@@ -798,6 +800,11 @@ main(int argc, char **argv)
 	static const int P_SAT[]   = { L_SENDA, L_SENDA, L_SENDA, L_SENDA, L_SENDB,
 		  L_SENDB, L_SENDB };
 	static const int P_THIRD[] = { L_THIRD, L_SENDA, L_SENDB };
+	// depth-4 buffers on A, both directions saturated (resizes then hit full
+	// power-of-two rings)
+	static const int P_SAT4[] = { L_SENDA, L_SENDA, L_SENDA, L_SENDA, L_SENDA,
+		L_SENDA, L_SENDA, L_SENDB, L_SENDB, L_SENDB, L_SENDB, L_SENDB, L_SENDB,
+		L_SENDB };
 	static seqarg    SQ[2][6];
 	for (int p = 0; p < 2; p++) {
 		SQ[p][0] = (seqarg){ p, 0, 0, 0, L_N, NULL, 0 };
@@ -805,12 +812,14 @@ main(int argc, char **argv)
 		SQ[p][2] = (seqarg){ p, 0, 1, 0, L_N, P_SAT, 7 };
 		SQ[p][3] = (seqarg){ p, 1, 0, 0, L_N, P_SAT, 7 };
 		SQ[p][4] = (seqarg){ p, 0, 0, 0, L_N, P_THIRD, 3 };
+		SQ[p][5] = (seqarg){ p, 2, 0, 0, L_N, P_SAT4, 14 };
 	}
 	if (!T) {
 		for (int p = 0; p < 2; p++) {
 			explore_seq("sat-c0", &SQ[p][2], 3, 3, 1);
 			explore_seq("sat-c1", &SQ[p][3], 3, 3, 1);
 			explore_seq("third-c0", &SQ[p][4], 3, 3, 1);
+			explore_seq("sat4-c2", &SQ[p][5], 3, 3, 1);
 			explore_seq("init-c0", &SQ[p][0], 5, 4, 0.35);
 		}
 	} else {
